@@ -54,7 +54,9 @@ THEOREMS = [P + n for n in (
     'rdm_rows_eq_map', 'ptsOkB_sound', 'checked_points_partition',
     'tasks_one_per_center', 'eval_per_center', 'eval_per_center_any_schedule',
     'pipeline_per_center', 'chunks_cover_any_points', 'table_rows_any_points',
-    'rdm_corr_of_searchlight', 'rdm_poisson_of_searchlight')]
+    'rdm_corr_of_searchlight', 'rdm_poisson_of_searchlight',
+    # round 4
+    'buffer_dtype_leaf', 'table_rows_stored_unchanged')]
 RULE = ('one PRNG; ops: neighbors (shape 1..5 per axis, centre inside or up to 2 outside, radius from '
         '{-1,0,.5,1,1.41,1.42,1.5,1.7,1.73,2,2.24,2.3,2.5,3}), volume (shape <= 4x4x3 quick / 5x5x4 '
         'thorough, random mask contents as bool/int/float/non-binary values, thresholds '
@@ -67,6 +69,11 @@ RULE = ('one PRNG; ops: neighbors (shape 1..5 per axis, centre inside or up to 2
         'result), boundary volumes (one voxel thick, radius <= 1, radius 10/15 = whole volume, thresholds 0 / 1 / '
         'exactly the in-mask fraction of some voxel), input forms of get_searchlight_RDMs (data as list / int / '
         'float32 / Fortran / strided, neighbours as lists / arrays / tuples, centres as list, string event labels), '
+        'round 4: data dtype / layout (int8/16/32/64, float32, Fortran, strided, nested list, integer Fortran / strided) '
+        'CROSSED with the chunked branch (1000, 1001, 1002-1099, 1100, all centres) x euclidean / correlation (all six '
+        'methods thorough), searchlights of 7 or 19 voxels, some condition with 2-3 observations (non-integral means); '
+        'every chunked result is also compared bit for bit with the library\'s own unchunked result on the first / last '
+        '300 centres; pipelines with integer / Fortran data incl. one with > 1000 centres; '
         'points (for EVERY n in 1001..20000 plus a few up to 10^6 the split points the code under check hands to '
         'np.split, read off by stopping the call there: admissible, equal to the model\'s IEEE linspace, chunks '
         'partition 0..n-1; chunk lengths for every 25th n quick / all thorough), pipeline (mask -> library centres '
@@ -87,7 +94,14 @@ BRANCHES = ['nb:clipped', 'nb:interior', 'nb:outside_center', 'nb:r_le_0', 'nb:b
             'rdms:form_list', 'rdms:form_fortran', 'rdms:form_int', 'rdms:form_f32',
             'rdms:labels_str', 'rdms:nb_arrays', 'rdms:nb_tuples', 'rdms:centers_list',
             'pts:range', 'pts:deviates_from_floor', 'pts:uneven_chunks',
-            'eval:end_to_end', 'eval:out_of_order', 'pipe:some', 'pipe:chunked']
+            'eval:end_to_end', 'eval:out_of_order', 'pipe:some', 'pipe:chunked',
+            # round 4: dtype / layout of the data crossed with the chunked branch
+            'chunked:int', 'chunked:int16', 'chunked:int64', 'chunked:float32', 'chunked:fortran',
+            'chunked:strided', 'chunked:list', 'chunked:int_euclidean', 'chunked:int_correlation',
+            'chunked:float32_euclidean', 'chunked:float32_correlation',
+            'rdms:n1000_int', 'rdms:n1001_int', 'rdms:n1000_float32', 'rdms:n1001_float32',
+            'chunked:same_as_plain', 'chunked:same_as_plain_form', 'rdms:form_anyint',
+            'pipe:int', 'pipe:chunked_int']
 ASSUMPTIONS = [
     'float64 `sqrt(k) < r` agrees with the exact test `0 < r and k < r^2` for the generated radii '
     '(never within 1e-3 of an irrational sqrt(k); integer radii hit perfect squares exactly)',
@@ -241,25 +255,37 @@ def _label_str(e):
     return 'c%03d' % (e + 100)
 
 
+def _data_form(dk, data):
+    """the data matrix as the kind of object `dk` names (dtype / memory layout / nesting)"""
+    if dk == 'list':
+        return [[float(v) for v in row] for row in data]
+    if dk == 'int':
+        return np.array(data, dtype=np.int64)
+    if dk in ('int16', 'int8', 'int32'):
+        return np.array(data, dtype={'int16': np.int16, 'int8': np.int8, 'int32': np.int32}[dk])
+    if dk == 'f32':
+        return np.array(data, dtype=np.float32)
+    if dk == 'fortran':
+        return np.asfortranarray(np.array(data, dtype=float))
+    if dk == 'fortran_int':
+        return np.asfortranarray(np.array(data, dtype=np.int32))
+    if dk in ('strided', 'strided_int'):
+        big = np.zeros((len(data) * 2, len(data[0]) * 2), dtype=float if dk == 'strided' else np.int16)
+        big[::2, ::2] = np.array(data)
+        return big[::2, ::2]
+    return np.array(data, dtype=float)
+
+
+INT_FORMS = ('int', 'int16', 'int8', 'int32', 'fortran_int', 'strided_int')
+DATA_FORMS = ['list', 'int', 'int16', 'f32', 'fortran', 'strided', 'float', 'int32', 'strided_int', 'fortran_int',
+              'int8']
+
+
 def _lib_args(case, data, centers, nbs, events):
     """the arguments in the form the case asks for (`form`): every public way of handing the
     same data matrix / centres / neighbour lists / events to `get_searchlight_RDMs`"""
     form = case.get('form') or {}
-    dk = form.get('data', 'float')
-    if dk == 'list':
-        d = [[float(v) for v in row] for row in data]
-    elif dk == 'int':
-        d = np.array(data, dtype=int)
-    elif dk == 'f32':
-        d = np.array(data, dtype=np.float32)
-    elif dk == 'fortran':
-        d = np.asfortranarray(np.array(data, dtype=float))
-    elif dk == 'strided':
-        big = np.zeros((len(data) * 2, len(data[0]) * 2))
-        big[::2, ::2] = np.array(data, dtype=float)
-        d = big[::2, ::2]
-    else:
-        d = np.array(data, dtype=float)
+    d = _data_form(form.get('data', 'float'), data)
     nk = form.get('nb', 'list')
     if nk == 'array':
         nb = [np.array(s, dtype=int) for s in nbs]
@@ -413,7 +439,7 @@ def _gen_rdms(rng, method=None):
                 'seed': rng.randint(0, 10 ** 9), 'shuffle': rng.random() < 0.4, 'take': None}
         if rng.random() < 0.5:
             # the same inputs handed over in another public form
-            case['form'] = {'data': rng.choice(['list', 'int', 'f32', 'fortran', 'strided', 'float']),
+            case['form'] = {'data': rng.choice(DATA_FORMS),
                             'nb': rng.choice(['list', 'array', 'tuple']),
                             'centers': rng.choice(['array', 'list']),
                             'events': rng.choice(['int', 'str']),
@@ -422,16 +448,55 @@ def _gen_rdms(rng, method=None):
             return case
 
 
-def _gen_big(rng, take, method='euclidean'):
-    """a volume with more than 1000 accepted centres (radius small, threshold 0)"""
+def _events_nonintegral(rng, method):
+    """events in which some condition has 2 or 3 observations (condition means in halves / thirds)"""
+    while True:
+        ev = _gen_events(rng, method)
+        if any(ev.count(c) in (2, 3) for c in set(ev)):
+            return ev
+
+
+def _gen_big(rng, take, method='euclidean', form=None):
+    """a volume with more than 1000 accepted centres (radius small, threshold 0); with `form` the
+    inputs are handed over in that public form (dtype / layout x chunked branch, round 4): tiny
+    searchlights (7 or 19 voxels), condition means that are not integers"""
     shape = rng.choice([[11, 11, 11], [12, 10, 9], [10, 11, 10], [13, 9, 9], [26, 8, 5]])
     n = shape[0] * shape[1] * shape[2]
     mask = [1] * n
     for _ in range(rng.randint(0, 15)):
         mask[rng.randrange(n)] = 0
-    return {'op': 'rdms', 'shape': shape, 'mask': mask, 'radius': rat(rng.choice([F(3, 2), F(2)])),
+    case = {'op': 'rdms', 'shape': shape, 'mask': mask, 'radius': rat(rng.choice([F(3, 2), F(2)])),
             'threshold': 0, 'events': _gen_events(rng, method), 'method': method,
             'seed': rng.randint(0, 10 ** 9), 'shuffle': rng.random() < 0.5, 'take': take}
+    if form is not None:
+        case['radius'] = rat(rng.choice([F(6, 5), F(6, 5), F(3, 2)]))
+        case['events'] = _events_nonintegral(rng, method)
+        case['form'] = dict({'nb': rng.choice(['list', 'array']), 'centers': rng.choice(['array', 'list']),
+                             'events': rng.choice(['int', 'int', 'str']), 'events_list': rng.random() < 0.5},
+                            **form)
+    return case
+
+
+def _gen_chunked_forms(rng, tier):
+    """round 4: every dtype / layout of the data matrix crossed with the chunked branch (> 1000
+    centres, also exactly 1000 / 1001) and with the methods euclidean / correlation (all six thorough)"""
+    quick = tier == 'quick'
+    kinds = ['int16', 'int', 'f32', 'fortran', 'strided', 'list', 'int32', 'strided_int', 'fortran_int', 'int8']
+    takes = [1001, None, rng.randint(1002, 1099), 1100, None]
+    rng.shuffle(takes)
+    for i, dk in enumerate(kinds):
+        for j, m in enumerate(('euclidean', 'correlation')):
+            if quick and i >= 6 and (i + j) % 2:
+                continue                       # the rarer kinds: one method each in the quick tier
+            yield _gen_big(rng, takes[(i + j) % len(takes)], m, form={'data': dk})
+    # the limit itself, integer and single-precision data: 1000 (plain), 1001 (first chunked)
+    for dk in ('int16', 'f32'):
+        yield _gen_big(rng, 1000, rng.choice(['euclidean', 'correlation']), form={'data': dk})
+        yield _gen_big(rng, 1001, rng.choice(['euclidean', 'correlation']), form={'data': dk})
+    if not quick:
+        for m in METHODS:
+            for dk in ('int16', 'int', 'f32', 'fortran_int', 'strided_int', 'fortran'):
+                yield _gen_big(rng, rng.choice([None, 1001, 1002, 1100]), m, form={'data': dk})
 
 
 def _gen_eval(rng, n_jobs, backend):
@@ -460,8 +525,14 @@ def _gen_points(tier):
     yield {'op': 'points', 'ns': [25000, 99999, 100000, 123457, 1000000], 'full': [25000, 123457]}
 
 
-def _gen_pipeline(rng, big=False):
-    """mask -> library's own centres / neighbours -> RDMs -> evaluation list"""
+PIPE_KINDS = ('int16', 'int', 'fortran', 'strided_int', 'fortran_int')   # exact in the library (no float32)
+
+
+def _gen_pipeline(rng, big=False, kind=None):
+    """mask -> library's own centres / neighbours -> RDMs -> evaluation list; `kind` = dtype / layout
+    of the data matrix (round 4; default float64 C order)"""
+    if kind is None and not big and rng.random() < 0.3:
+        kind = rng.choice(PIPE_KINDS)
     while True:
         if big:
             shape = rng.choice([[11, 11, 10], [12, 10, 9], [21, 8, 7]])
@@ -479,6 +550,9 @@ def _gen_pipeline(rng, big=False):
                 'events': _gen_events(rng, 'euclidean'), 'method': 'euclidean',
                 'seed': rng.randint(0, 10 ** 9), 'shuffle': False, 'take': None,
                 'n_jobs': rng.choice([1, 1, 2, 3])}
+        if kind:
+            case['data_kind'] = kind
+            case['events'] = _events_nonintegral(rng, 'euclidean')
         nc = len(_expand_rdms(case)[1])
         if (nc > 1000) if big else (nc >= 1):
             return case
@@ -553,6 +627,7 @@ def generate(rng, tier):
     for _ in range(60 if quick else 1200):
         yield _gen_pipeline(rng)
     yield _gen_pipeline(rng, big=True)
+    yield _gen_pipeline(rng, big=True, kind=rng.choice(['int16', 'int']))
     if not quick:
         yield from _exhaustive_222()
         yield from _exhaustive_neighbors()
@@ -567,6 +642,7 @@ def generate(rng, tier):
     yield _gen_big(rng, rng.choice([None, 1001]), 'mahalanobis')
     yield _gen_big(rng, rng.choice([None, 1001]), 'crossnobis')
     yield _gen_big(rng, None, 'poisson_cv')
+    yield from _gen_chunked_forms(rng, tier)
     if not quick:
         for m in METHODS:
             yield _gen_big(rng, rng.choice([None, 1001, 1002, 1100]), m)
@@ -594,6 +670,9 @@ def search(rng, tier):
             yield {'op': 'points', 'ns': list(range(lo, lo + 200)), 'full': [lo]}
         if rng.random() < 0.05:
             yield _gen_big(rng, rng.choice([None, 1001]), 'euclidean')
+        if rng.random() < 0.08:
+            yield _gen_big(rng, rng.choice([None, 1001, 1000]), rng.choice(['euclidean', 'correlation']),
+                           form={'data': rng.choice(DATA_FORMS)})
         if rng.random() < 0.1:
             yield _gen_eval(rng, rng.choice([1, 2, 3]), 'threading')
 
@@ -659,8 +738,8 @@ def _run_pipeline(case):
                                              threshold=float(unrat(case['threshold'])))
     if len(centers) == 0:
         return {'results': [], 'centers': []}
-    sl = SL.get_searchlight_RDMs(np.array(data, dtype=float), centers, nbs, np.array(events),
-                                 method='euclidean')
+    sl = SL.get_searchlight_RDMs(_data_form(case.get('data_kind', 'float'), data), centers, nbs,
+                                 np.array(events), method='euclidean')
     with joblib.parallel_backend('threading'):
         toks = SL.evaluate_models_searchlight(sl, None, token_eval, method='corr', theta=None,
                                               n_jobs=case['n_jobs'])
@@ -674,6 +753,27 @@ def _pipeline_data(case):
     n = shape[0] * shape[1] * shape[2]
     rr = random.Random(case['seed'])
     return [[rr.randint(-4, 4) for _ in range(n)] for _ in case['events']]
+
+
+PLAIN_BLOCK = 300
+
+
+def _chunked_vs_plain(big, d, c, nb, ev, method):
+    """number of rows of the chunked result that differ from the rows the library computes for the
+    same centres when fewer than 1000 are requested (the first and the last PLAIN_BLOCK centres: the
+    plain branch), plus the first such row"""
+    n = len(big)
+    bad = {}
+    for lo in (0, n - PLAIN_BLOCK):
+        part = SL.get_searchlight_RDMs(d, c[lo:lo + PLAIN_BLOCK], nb[lo:lo + PLAIN_BLOCK], ev,
+                                       method=method).dissimilarities
+        for i in range(PLAIN_BLOCK):
+            x = np.asarray(big[lo + i], dtype=float)
+            y = np.asarray(part[i], dtype=float)
+            if not np.array_equal(x, y, equal_nan=True):
+                bad.setdefault(lo + i, [lo + i, [float(v) for v in x], [float(v) for v in y]])
+    first = bad[min(bad)] if bad else None
+    return {'rows': len(bad), 'first': first}
 
 
 def run_impl(case):
@@ -700,9 +800,14 @@ def _run_impl(case):
             data, centers, nbs, events = _expand_rdms(case)
             d, c, nb, ev = _lib_args(case, data, centers, nbs, events)
             out = SL.get_searchlight_RDMs(d, c, nb, ev, method=case['method'])
-            return {'rdm': [[None if math.isnan(v) else float(v) for v in row]
-                            for row in out.dissimilarities.tolist()],
-                    'voxel_index': [int(v) for v in out.rdm_descriptors['voxel_index']]}
+            res = {'rdm': [[None if math.isnan(v) else float(v) for v in row]
+                           for row in out.dissimilarities.tolist()],
+                   'voxel_index': [int(v) for v in out.rdm_descriptors['voxel_index']]}
+            if len(centers) > 1000:
+                # "whatever the number of centres (chunked or not)": the same library on the first and
+                # the last 300 centres (plain branch) must give the very same rows, bit for bit
+                res['plain_mismatch'] = _chunked_vs_plain(out.dissimilarities, d, c, nb, ev, case['method'])
+            return res
         if op == 'eval':
             return _run_eval(case)
         if op == 'points':
@@ -829,6 +934,12 @@ def _rows_diff(a, b, what, rtol=1e-9, atol=1e-12):
 _RAW_ORDER = {}
 
 
+def _nonan(x):
+    if isinstance(x, list):
+        return [_nonan(v) for v in x]
+    return None if isinstance(x, float) and math.isnan(x) else x
+
+
 def compare(case, impl, model):
     if case['op'] in ('neighbors', 'volume') and not (isinstance(impl, dict) and 'exc' in impl) \
             and not (isinstance(model, dict) and 'model_error' in model):
@@ -869,6 +980,10 @@ def _compare(case, impl, model):
     if op == 'rdms':
         if impl['voxel_index'] != model['voxel_index']:
             return 'voxel_index descriptor differs from the centres'
+        pm = impl.get('plain_mismatch')
+        if pm and pm['rows']:
+            return f'{pm["rows"]} rows of the chunked result differ from the rows computed for the same ' \
+                   f'centres without chunking, first: {_nonan(pm["first"])}'
         return _rows_diff(impl['rdm'], model['rdm'], 'rdm', *_tol(case))
     if op == 'eval':
         if impl['tokens'] != model['tokens']:
@@ -1055,6 +1170,13 @@ def oracle(case):
         if len(impl['rdm']) != len(centers):
             return {'what': 'number of RDMs differs from number of centres', 'observed': len(impl['rdm']),
                     'expected': len(centers), 'features': feats}
+        feats = dict(feats, data_form=(case.get('form') or {}).get('data', 'float'))
+        pm = impl.get('plain_mismatch')
+        if pm and pm['rows']:
+            return {'what': 'the RDM reported for a centre depends on the number of centres: the chunked call '
+                            '(> 1000 centres) and the unchunked call on the same centres give different rows',
+                    'rows_differing': pm['rows'], 'centre_number': pm['first'][0],
+                    'observed': _nonan(pm['first'][1]), 'expected': _nonan(pm['first'][2]), 'features': feats}
         for i, s in enumerate(nbs):
             cols = [[row[j] for j in s] for row in data]
             want = [float(v) for v in _direct_rdm(cols, events, case['method'])]
@@ -1208,6 +1330,29 @@ def features(case, impl):
                        ('f32', 'rdms:form_f32')):
             if form.get('data') == k:
                 b.append(tag)
+        dk = form.get('data')
+        if dk in INT_FORMS:
+            b.append('rdms:form_anyint')
+        if n >= 1000 and dk:
+            # round 4: dtype / layout of the data x chunked branch (condition means not integral)
+            ev = list(case['events'])
+            nonint = any(ev.count(c_) in (2, 3) for c_ in set(ev))
+            f['chunk_form'] = f'{dk}/{case["method"]}/{"n" + str(n) if n <= 1001 else ">1001"}'
+            if n > 1000 and nonint:
+                if dk in INT_FORMS:
+                    b.append('chunked:int')
+                    b.append('chunked:int_' + case['method'])
+                b.append({'f32': 'chunked:float32', 'fortran': 'chunked:fortran', 'strided': 'chunked:strided',
+                          'list': 'chunked:list', 'int': 'chunked:int64', 'strided_int': 'chunked:strided',
+                          'fortran_int': 'chunked:fortran'}.get(dk, 'chunked:' + dk))
+                if dk == 'f32':
+                    b.append('chunked:float32_' + case['method'])
+                if isinstance(impl, dict) and (impl.get('plain_mismatch') or {}).get('rows') == 0:
+                    b.append('chunked:same_as_plain_form')
+            if n in (1000, 1001) and nonint and (dk in INT_FORMS or dk == 'f32'):
+                b.append(f'rdms:n{n}_' + ('int' if dk in INT_FORMS else 'float32'))
+        if n > 1000 and isinstance(impl, dict) and (impl.get('plain_mismatch') or {}).get('rows') == 0:
+            b.append('chunked:same_as_plain')
         if form.get('events') == 'str':
             b.append('rdms:labels_str')
         if form.get('nb') == 'array':
@@ -1244,6 +1389,9 @@ def features(case, impl):
         if isinstance(impl, dict) and 'results' in impl:
             k = len(impl['results'])
             f['n_centers_class'] = '>1000' if k > 1000 else '<=1000'
+            f['data_kind'] = case.get('data_kind', 'float')
+            if case.get('data_kind') in INT_FORMS:
+                b.append('pipe:chunked_int' if k > 1000 else 'pipe:int')
             if k > 1000:
                 b.append('pipe:chunked')
             elif 0 < k < sum(_flags(case)):
@@ -1271,7 +1419,8 @@ def nontrivial_key(case, impl):
     if op == 'pipeline':
         if not isinstance(impl, dict) or len(impl.get('results', [])) < 2:
             return None
-        return [op, case['shape'], case['mask'], case['radius'], case['threshold'], case['events'], case['seed']]
+        return [op, case['shape'], case['mask'], case['radius'], case['threshold'], case['events'], case['seed'],
+                case.get('data_kind')]
     if op in ('rdms', 'eval'):
         if not isinstance(impl, dict) or 'exc' in impl:
             return None
@@ -1288,7 +1437,7 @@ def shrink(case, still_fails):
     op = case['op']
     if op not in ('volume', 'neighbors'):
         if op == 'rdms' and case.get('take') is None:
-            for t in (1, 2, 5, 20):
+            for t in (1, 2, 5, 20, 1001):
                 c2 = dict(case, take=t)
                 if len(_expand_rdms(c2)[1]) >= 1 and still_fails(c2):
                     return c2
